@@ -145,6 +145,8 @@ def typed_fields(rnd, cls):
             f["b"] = rnd.random() < 0.5
         if rnd.random() < 0.5:
             f["opt"] = rnd.choice(STRS + [None])
+        if rnd.random() < 0.5:
+            f["optd"] = rnd.choice(STRS + [None, None])
         if rnd.random() < 0.6:
             f["nums"] = [rnd.choice(INTS) for _ in range(rnd.randint(0, 4))]
         if rnd.random() < 0.6:
@@ -245,7 +247,7 @@ def gen_event(rnd, allow_nested=True, cls=None):
 
 
 FIELD_NAMES = {
-    "Typed": ("i", "f", "s", "b", "opt", "nums", "mapping"), "SubTyped": ("i", "f", "s", "b", "opt", "nums", "mapping", "extra"),
+    "Typed": ("i", "f", "s", "b", "opt", "optd", "nums", "mapping"), "SubTyped": ("i", "f", "s", "b", "opt", "optd", "nums", "mapping", "extra"),
     "Nested": ("inner", "deep", "inners"), "Rich": ("color", "when", "mode", "pair", "anyv", "int_keys"),
     "MyStart": ("topic", "limit"), "MyStop": ("answer", "score"), "ModelStop": ("payload", "notes"), "OverrideStop": ("value",),
     "MyInput": ("prompt",), "MyHuman": ("response",), "Carrier": ("value", "type", "qualified_name"),
